@@ -8,6 +8,7 @@ mod chain;
 mod classify;
 mod envelope;
 mod framing;
+mod jsonser;
 mod notified;
 mod server;
 mod transport;
@@ -63,6 +64,41 @@ fn main() {
         "chain" => cmd_chain(&args, seed, n, &out, &summary),
         "server" => cmd_server(&args, seed, n, &out, &summary),
         "classify" => cmd_classify(&args, seed, n, &out, &summary),
+        "jsonser" => {
+            let mut r = Rng::new(seed ^ 0x150a);
+            util::log_open(&out);
+            let mut stats = jsonser::Stats { trees: 0, sizes_tried: 0, scalars: 0, atoms: 0 };
+            let mut dumpw = arg_val(&args, "--dump-scenarios").map(|p| std::io::BufWriter::new(std::fs::File::create(p).unwrap()));
+            let mut trees: Vec<Value> = Vec::new();
+            if let Some(p) = arg_val(&args, "--replay") {
+                trees.extend(read_lines(&p).into_iter().map(|v| v.get("v").cloned().unwrap_or(v)));
+            }
+            if let Some(p) = arg_val(&args, "--trees") {
+                trees.extend(read_lines(&p));
+            }
+            for _ in 0..n {
+                let d = r.range(1, 4);
+                trees.push(jsonser::random_tree(&mut r, d));
+            }
+            ev_reset("jsonser");
+            for t in &trees {
+                if let Some(w) = dumpw.as_mut() {
+                    use std::io::Write;
+                    writeln!(w, "{}", json!({"family":"jsonser","v":t})).unwrap();
+                }
+                jsonser::tree_case(t, &mut stats);
+            }
+            if arg_flag(&args, "--sweep") {
+                jsonser::scalar_sweep(&mut stats);
+            }
+            if arg_flag(&args, "--numbers") {
+                jsonser::number_sweep(&mut r, arg_flag(&args, "--all-f32"), &mut stats);
+            }
+            util::ev(json!({"ev":"end"}));
+            let lines = util::log_close();
+            util::write_json(&summary, &json!({"trees": stats.trees, "sizes_tried": stats.sizes_tried, "scalars": stats.scalars,
+                                               "atoms": stats.atoms, "events": lines}));
+        }
         "transport" => {
             use transport::*;
             let mut r = Rng::new(seed ^ 0x7a45);
@@ -150,6 +186,10 @@ fn main() {
             std::process::exit(2);
         }
     }
+}
+
+fn ev_reset(sid: &str) {
+    util::ev(json!({"ev":"reset","sid":sid}));
 }
 
 fn cmd_framing(args: &[String], seed: u64, n: u64, out: &str, summary: &str) {
